@@ -435,7 +435,7 @@ pub fn gen_input(seed: u64, shard: usize, index: usize, db: &[Table]) -> Input {
 }
 
 fn n_inputs(tier: Tier) -> usize {
-    tier.pick(700, 40_000)
+    tier.pick(700, 8_000)
 }
 const SHARDS: usize = 12;
 const WATCHDOG: Duration = Duration::from_secs(40);
